@@ -347,3 +347,117 @@ func min(a, b int) int {
 	}
 	return b
 }
+
+// ---- joins ------------------------------------------------------------------------------------------
+
+// JoinTables draws 2-3 tables for join queries: first column "k" (small int join key, sometimes NULL),
+// second "v" (int payload), optionally "k2" (second key) and "s" (string); SQL- or catalog-created.
+func JoinTables(t *rapid.T, n int) []dbh.TableDef {
+	var out []dbh.TableDef
+	for i := 0; i < n; i++ {
+		def := dbh.TableDef{Name: string(rune('a' + i)), SQL: rapid.Bool().Draw(t, "jsql")}
+		cols := []dbh.Col{{Name: "k", T: "i"}, {Name: "v", T: "i"}}
+		if rapid.Bool().Draw(t, "hask2") || n == 3 {
+			cols = append(cols, dbh.Col{Name: "k2", T: "i"})
+		}
+		if rapid.IntRange(0, 2).Draw(t, "hass") == 0 {
+			cols = append(cols, dbh.Col{Name: "s", T: "s"})
+		}
+		for j := range cols {
+			if def.SQL {
+				cols[j].Idx = dbh.IdxSkip
+			} else {
+				cols[j].Idx = rapid.SampledFrom([]string{dbh.IdxNone, dbh.IdxSkip}).Draw(t, "jidx")
+			}
+		}
+		def.Cols = cols
+		out = append(out, def)
+	}
+	return out
+}
+
+// JoinRow draws a row for a join table; key columns come from a tiny domain so that keys repeat and miss.
+func JoinRow(t *rapid.T, def *dbh.TableDef, p Profile, payload int32) dbh.Row {
+	r := make(dbh.Row, len(def.Cols))
+	for i, c := range def.Cols {
+		switch {
+		case c.Name == "k" || c.Name == "k2":
+			if !ColProfile(c, p).NoNull && rapid.IntRange(0, 14).Draw(t, "knull") == 0 {
+				r[i] = dbh.NullV('i')
+			} else {
+				r[i] = dbh.IntV(rapid.Int32Range(0, 6).Draw(t, "kval"))
+			}
+		case c.Name == "v":
+			r[i] = dbh.IntV(payload)
+		default:
+			r[i] = RowValue(t, c.T, Profile{SmallOnly: true, NoNull: ColProfile(c, p).NoNull}, "jv")
+		}
+	}
+	return r
+}
+
+func keyCols(def *dbh.TableDef) []string {
+	var k []string
+	for _, c := range def.Cols {
+		if c.Name == "k" || c.Name == "k2" {
+			k = append(k, c.Name)
+		}
+	}
+	return k
+}
+
+// JoinQ draws a join query over the tables.
+func JoinQ(t *rapid.T, defs []dbh.TableDef) dbh.JoinQuery {
+	q := dbh.JoinQuery{}
+	for _, d := range defs {
+		q.Tables = append(q.Tables, d.Name)
+	}
+	if rapid.Bool().Draw(t, "swap") && len(defs) == 2 {
+		q.Tables[0], q.Tables[1] = q.Tables[1], q.Tables[0]
+	}
+	byName := map[string]*dbh.TableDef{}
+	for i := range defs {
+		byName[defs[i].Name] = &defs[i]
+	}
+	ref := func(tbl string) dbh.ColRef {
+		return dbh.ColRef{T: tbl, C: rapid.SampledFrom(keyCols(byName[tbl])).Draw(t, "kc")}
+	}
+	mk := func(x, y string) dbh.JoinCond {
+		c := dbh.JoinCond{L: ref(x), R: ref(y)}
+		if rapid.Bool().Draw(t, "flip") {
+			c.L, c.R = c.R, c.L
+		}
+		return c
+	}
+	if len(defs) == 2 {
+		q.UseOn = rapid.Bool().Draw(t, "useon")
+		q.Conds = []dbh.JoinCond{mk(q.Tables[0], q.Tables[1])}
+	} else {
+		if rapid.Bool().Draw(t, "star") {
+			q.Conds = []dbh.JoinCond{mk(q.Tables[0], q.Tables[1]), mk(q.Tables[0], q.Tables[2])}
+		} else {
+			q.Conds = []dbh.JoinCond{mk(q.Tables[0], q.Tables[1]), mk(q.Tables[1], q.Tables[2])}
+		}
+	}
+	nf := rapid.IntRange(0, 2).Draw(t, "nfilt")
+	for i := 0; i < nf; i++ {
+		d := byName[q.Tables[rapid.IntRange(0, len(q.Tables)-1).Draw(t, "ft")]]
+		c := d.Cols[rapid.IntRange(0, len(d.Cols)-1).Draw(t, "fc")]
+		var v dbh.Val
+		if c.Name == "v" {
+			v = dbh.IntV(rapid.Int32Range(0, 120).Draw(t, "fv"))
+		} else {
+			v = Value(t, c.T, Profile{SmallOnly: true}, "fv")
+		}
+		q.Filters = append(q.Filters, dbh.Leaf(d.Name+"."+c.Name, rapid.SampledFrom(cmps).Draw(t, "fcmp"), v))
+	}
+	if rapid.IntRange(0, 3).Draw(t, "star-list") != 0 {
+		n := rapid.IntRange(1, 4).Draw(t, "nsel")
+		for i := 0; i < n; i++ {
+			d := byName[q.Tables[rapid.IntRange(0, len(q.Tables)-1).Draw(t, "st")]]
+			c := d.Cols[rapid.IntRange(0, len(d.Cols)-1).Draw(t, "sc")]
+			q.Cols = append(q.Cols, dbh.ColRef{T: d.Name, C: c.Name})
+		}
+	}
+	return q
+}
